@@ -29,7 +29,7 @@ RULE = {"C16": (
     "line events of the optimizer / interface code according to a seeded random-walk or PCT(d<=3) schedule; a later thread "
     "may be handed the ident of one that exited. Swarm toggles per run: the shared optimizer farms its trials out to a thread "
     "pool whose tasks are further simulated threads; all threads ask about the same one or two contractions; callers keep one "
-    "set of argument containers edited in place; one store into a directory cache fails with ENOSPC (that query may fail). "
+    "set of argument containers edited in place; one store into a directory cache fails with ENOSPC, or every trial of a flagged query fails (that query may fail); a caller switches a shared Reusable* object to cache_only part way through. "
     "Every answer is checked against the query that issued it; a run that only polls is a livelock. "
     "distinct_nontrivial counts distinct (optimizer kind, context-switch signature = sequence of (from, to, function)) "
     "among runs with at least one context switch or at least two queries."
@@ -54,7 +54,7 @@ ASSUMPTIONS = {"C16": [
 EXPECTED_PROBES = {"C16": ["probe:context_switch", "probe:ident_reused", "probe:hyper_branch", "probe:optimal_branch",
                            "kind:preset:auto", "kind:auto-nocache", "kind:auto-cache", "kind:reusable-hyper", "kind:reusable-rgreedy",
                            "sampler:pct", "sampler:walk", "probe:same_size_pair_queried", "probe:switch_inside_reusable_search", "probe:twin_queried",
-                           "probe:contract_through_interface_caches", "probe:nested_reentrant_query", "probe:shared_mutable_args", "disk_error_injected", "probe:trials_in_thread_pool"]}
+                           "probe:contract_through_interface_caches", "probe:nested_reentrant_query", "probe:shared_mutable_args", "disk_error_injected", "probe:trials_in_thread_pool", "all_trials_of_a_query_failed", "probe:cache_only_switched_on"]}
 
 
 def violation_class(v):
